@@ -521,7 +521,9 @@ func c09AllSuccessors(c *Ctx) {
 	// the dependents map: result of getDependents; the loop over it; the candidate store
 	var depCall *ssa.Call
 	for _, call := range an.Calls(fn) {
-		if cl, ok := call.(*ssa.Call); ok && calleeLabel(call) == "getDependents" {
+		// by role: the kv function that turns the version graph into the successors map
+		// (getDependents today): its result type is the map of maps of *crdt.Root
+		if cl, ok := call.(*ssa.Call); ok && isDependentsCall(call) {
 			depCall = cl
 		}
 	}
@@ -1313,4 +1315,25 @@ func c09RetiresFirst(c *Ctx) {
 		pos = c.P.Pos(unlist[0].Pos())
 	}
 	c.R.Cond(good, rule, name+": retired versions are unlisted first", pos, "DELETE current/<name> for every retired name, error honoured, before the first node DELETE", why)
+}
+
+func isDependentsCall(call ssa.CallInstruction) bool {
+	cal := call.Common().StaticCallee()
+	if cal == nil || an.PkgPathOf(cal) != kvPkg {
+		return false
+	}
+	res := cal.Signature.Results()
+	if res.Len() != 1 {
+		return false
+	}
+	outer, ok := res.At(0).Type().Underlying().(*types.Map)
+	if !ok {
+		return false
+	}
+	inner, ok := outer.Elem().Underlying().(*types.Map)
+	if !ok {
+		return false
+	}
+	nt := an.NamedOf(inner.Elem())
+	return nt != nil && nt.Obj().Name() == "Root"
 }
